@@ -9,6 +9,10 @@ def _places_in_operand(o, out):
         out.append((o["l"], o["p"]))
 
 
+import re as _re
+_IO_STREAM_TY = _re.compile(r"&mut (impl [^,]*\b(Write|Read)\b.*|std::net::TcpStream|std::io::Std(out|err)(Lock<'_>)?|dyn [^,]*\b(Write|Read)\b.*)$")
+
+
 class LocalDeps:
     """deps[d] = locals that some definition of d reads (assignments, call arguments -> destination)"""
 
@@ -55,7 +59,9 @@ class LocalDeps:
                             if isinstance(e, dict) and "n" in e:
                                 self.field_reads.setdefault(d, set()).add(e["n"])
                 # a callee that receives `&mut x` may write x from its other arguments
-                muts = [a for a, ty in zip(t["args"], t.get("arg_tys", [])) if ty.startswith("&mut ") and a.get("k") in ("copy", "move")]
+                # (not a socket-like stream: what is read from a connection later is the peer's data, not what was written to it before)
+                muts = [a for a, ty in zip(t["args"], t.get("arg_tys", [])) if ty.startswith("&mut ") and a.get("k") in ("copy", "move")
+                        and not _IO_STREAM_TY.match(ty)]
                 for m in muts:
                     others = []
                     for a in t["args"]:
@@ -160,6 +166,15 @@ class Taint:
                 if 0 in tl and not self.tret[name]:
                     self.tret[name] = True
                     changed = True
+                # a closure built here captures its environment: tainted captures taint the closure's environment parameter
+                for b in fn.blocks:
+                    if b["cleanup"] or (name, b["id"]) in self.cut_sites:
+                        continue
+                    for st in b["stmts"]:
+                        if st["k"] == "assign" and st["rv"].get("closure") in self.tparams and 1 not in self.tparams[st["rv"]["closure"]]:
+                            if any(o.get("k") in ("copy", "move") and o["l"] in tl for o in st["rv"].get("ops", [])):
+                                self.tparams[st["rv"]["closure"]].add(1)
+                                changed = True
                 for bid, t in fn.calls():
                     if (name, bid) in self.cut_sites:
                         continue
